@@ -10,6 +10,8 @@ namespace DymVerif.Core.LevNs
 /-- the parts of the state the liveness invariants read are equal -/
 def SameL (s s' : St) : Prop := s'.ras = s.ras ∧ s'.lev = s.lev ∧ s'.h = s.h ∧ s'.p = s.p
 
+theorem SameL.peq {s s' : St} (h : SameL s s') : s'.p = s.p := h.2.2.2
+
 theorem SameL.refl (s : St) : SameL s s := ⟨rfl, rfl, rfl, rfl⟩
 theorem SameL.trans {a b c : St} (h1 : SameL a b) (h2 : SameL b c) : SameL a c :=
   ⟨h2.1.trans h1.1, h2.2.1.trans h1.2.1, h2.2.2.1.trans h1.2.2.1, h2.2.2.2.trans h1.2.2.2⟩
@@ -95,6 +97,46 @@ theorem slashLiveness_same {s s1 : St} {r : Rollapp} (e : slashLiveness s r = .o
       · rename_i s2 q2 hsl
         injection e with e; subst e
         exact (slash_same hsl).trans ⟨rfl, rfl, rfl, rfl⟩
+
+-- the sequencer parameters are not written by the money movers either
+theorem slash_sqp {s s1 : St} {q q1 : Seq} {amt : Nat} {mul : Dec} {rw : Option Addr}
+    (e : slash s q amt mul rw = .ok (s1, q1)) : s1.sqp = s.sqp := by
+  unfold slash at e
+  dsimp only at e
+  split at e
+  · cases e
+  · rename_i s0 q0 h0
+    have h1 : s0.sqp = s.sqp := by
+      split at h0
+      · injection h0 with h0; injection h0 with h1 _; subst h1; rfl
+      · split at h0
+        · unfold sendFromModule at h0
+          split at h0
+          · cases h0
+          · split at h0
+            · cases h0
+            · split at h0
+              · cases h0
+              · injection h0 with h0; injection h0 with e1 _; subst e1; rfl
+        · cases h0
+    unfold burn at e
+    split at e
+    · cases e
+    · split at e
+      · cases e
+      · injection e with e; injection e with e1 _; subst e1; exact h1
+
+theorem slashLiveness_sqp {s s1 : St} {r : Rollapp} (e : slashLiveness s r = .ok s1) : s1.sqp = s.sqp := by
+  unfold slashLiveness at e
+  split at e
+  · injection e with e; subst e; rfl
+  · split at e
+    · injection e with e; subst e; rfl
+    · split at e
+      · cases e
+      · rename_i s2 q2 hsl
+        injection e with e; subst e
+        exact (setSeq_sqp _ _).trans (slash_sqp hsl)
 
 -- ---------------------------------------------------------------- the walk
 
@@ -442,6 +484,13 @@ theorem apply_msg_cl (hc : LClosed P) {s s' : St} {o : Op} (h : P s) (e : apply 
   | update m => exact updateState_cl hc h e
   | fraud au ra hh rev p rw => exact fraud_cl hc h e
   | obsolete au vs => exact markObsolete_cl hc h e
+  | punish au a rw => exact punish_cl hc h (punishProposal_ok e).2
+  | transferOwner sg ra' no =>
+    obtain ⟨r, hg, _, _, _, rfl⟩ := transferOwner_ok e
+    exact hc.set_same h hg rfl rfl rfl
+  | setSeqParams au sp =>
+    obtain ⟨_, hnp, _, rfl⟩ := setSeqParams_ok e
+    exact hc.of_same h ⟨rfl, rfl, rfl, rfl⟩
   | begin_ dt => cases hm
   | end_ f => cases hm
 
